@@ -238,20 +238,27 @@ def C17_translation_sound_complete_statement : Prop :=
       (∀ o ∈ projected cfg.uf tmpl A.answers ++ projected cfg.uf tmpl D, o.isSome) →
       projected cfg.uf tmpl A.answers = projected cfg.uf tmpl D
 
-/-- **C17_translation_sound_complete (fragment).**  For simple grammars (recursion allowed) and
-    every ground input list, with the SAME fuel `n` (nesting depth of non-terminal calls): the
-    reference SLD evaluation of the translated body `Body(l, S)` in the translated grammar and the
-    denotation ⟦b⟧ either both give no result (out of fuel / undefined non-terminal), or both
-    succeed, neither leaves a cut behind, and the remainders `S` of the SLD answers are exactly the
-    remainders of the denotation, in the same order — in particular the translated grammar
-    recognises exactly the lists the denotation derives.  The denotation binds nothing. -/
+/-- **C17_translation_sound_complete (fragment).**  Fragment (`SimpleSetting`): ISO mode; rules
+    `name --> body` without arguments and push-back; bodies from `[]`, ground terminal lists,
+    non-terminals without arguments (not named like a control construct), `,`, `;`/`|`,
+    if-then-else, if-then, `\\+`, `!`, `{true}`, `{fail}`, `{!}` at any nesting, recursion allowed;
+    a ground input list; enough unification fuel for the terminal lists.
+
+    For every such grammar, body and input, with the SAME fuel `n` (nesting depth of non-terminal
+    calls): the reference SLD evaluation (ISO cut semantics) of the translated body `Body(l, S)` in
+    the translated grammar and the denotation ⟦b⟧ either both give no result (out of fuel /
+    undefined non-terminal), or both succeed, report the same pending cut, and the remainders `S`
+    of the SLD answers are exactly the remainders of the denotation, in the same order — in
+    particular the translated grammar recognises exactly the lists the denotation derives, with
+    the cuts, negations and conditions pruning exactly the same derivations.  The denotation binds
+    nothing. -/
 theorem C17_translation_sound_complete_partial (cfg : Cfg) (gr : Grammar) (b : Body) (l : List Term)
     (h : SimpleSetting cfg gr b l) (n : Nat) :
     let st0 : St := { σ := [], next := 1 + b.nhid }
     match solve cfg.uf (programOf gr) n (b.tr (Term.list l) (.var 0) 1).1 st0,
           den cfg gr n true b st0 (Term.list l) with
     | .ok A, .ok D =>
-      A.cut = false ∧ D.cut = false ∧
+      A.cut = D.cut ∧
       A.answers.map (fun st => walk st.σ (.var 0)) = D.answers.map (·.2) ∧
       ∀ a ∈ D.answers, a.1 = st0
     | .error _, .error _ => True
@@ -271,14 +278,25 @@ theorem C17_translation_sound_complete_partial (cfg : Cfg) (gr : Grammar) (b : B
     | error e' => simp only [hx, hy, Rel] at hsim
     | ok D =>
       simp only [hx, hy, Rel] at hsim
-      obtain ⟨c1, c2, hall⟩ := hsim
-      refine ⟨c1, c2, ?_, ?_⟩
+      obtain ⟨c1, hall⟩ := hsim
+      refine ⟨c1, ?_, ?_⟩
       · exact hall.map_eq _ _ (fun st' a hr => by
           obtain ⟨_, r, e2, _, hw, _⟩ := hr
           rw [hw, e2])
       · exact hall.forall_right _ (fun st' a hr => hr.1)
 
-example : SimpleSetting { uf := 256, engine := false } [exampleRule] (.nt "a" []) [.atom "x", .atom "x"] :=
+example : SimpleSetting { uf := 256, engine := false } exampleGrammar (.nt "a" []) [.atom "x", .atom "z"] :=
   ⟨rfl, by decide, by decide, by decide, by decide⟩
+
+/-! the D16 witness, evaluated by the kernel on both sides of the theorem: with
+    `a --> [x], !, [y].  a --> [x], [z].  …` the input [x,z] is NOT recognised (the cut commits
+    to the first rule), [x,y] is, leaving [] -/
+example : (den { uf := 16, engine := false } exampleGrammar 4 true (.nt "a" []) ⟨[], 1⟩
+    (Term.list [.atom "x", .atom "z"])).map (·.answers.length) = .ok 0 := by decide +kernel
+example : (solve 16 (programOf exampleGrammar) 4
+    ((Body.nt "a" []).tr (Term.list [.atom "x", .atom "z"]) (.var 0) 1).1 ⟨[], 1⟩).map (·.answers.length) = .ok 0 := by
+  decide +kernel
+example : (den { uf := 16, engine := false } exampleGrammar 4 true (.nt "a" []) ⟨[], 1⟩
+    (Term.list [.atom "x", .atom "y"])).map (·.answers.map (·.2)) = .ok [Term.nilT] := by decide +kernel
 
 end PrologVerif.C17
